@@ -319,6 +319,9 @@ func CheckStartRule(r *verifsim.Run, t *Trace, p RecParams) {
 		} else if started {
 			r.Violate("C04", "C04.spurious", "non-frame", "recording started during event %d of kind %c", i, e.Kind)
 		}
+		if started && open {
+			r.Violate("C04", "C04.spurious", "while-active", "event %d (ordinal %d): a recording was started although one is still active (a recording starts only if no recording is active)", i, e.Ord)
+		}
 		if started {
 			open = true
 		}
